@@ -1,11 +1,13 @@
 package rig
 
 import (
+	"context"
 	"errors"
 	"fmt"
 	"net"
 	"net/netip"
 	"sync"
+	"time"
 
 	"github.com/pion/ice/v4"
 	"github.com/pion/stun/v3"
@@ -206,6 +208,61 @@ func (m *CountingUDPMux) Unreleased() []string {
 		h.mu.Unlock()
 		if cl == 0 && m.Removed[h.Ufrag] == 0 {
 			out = append(out, fmt.Sprintf("%s@%s", h.Ufrag, h.LocalAddr()))
+		}
+	}
+	return out
+}
+
+// CountingUniversalUDPMux decorates an ice.UniversalUDPMux: the handles it hands out per (ufrag, STUN URL) are
+// released only by closing them (the mux keys them by ufrag+url, RemoveConnByUfrag(ufrag) does not reach them).
+type CountingUniversalUDPMux struct {
+	ice.UniversalUDPMux
+	mu      sync.Mutex
+	Handles []*CountedConn
+	URLs    []string
+}
+
+// NewCountingUniversalUDPMux wraps m.
+func NewCountingUniversalUDPMux(m ice.UniversalUDPMux) *CountingUniversalUDPMux {
+	return &CountingUniversalUDPMux{UniversalUDPMux: m}
+}
+
+// GetConnForURL hands out a counted handle.
+func (m *CountingUniversalUDPMux) GetConnForURL(ufrag, url string, addr net.Addr) (net.PacketConn, error) {
+	c, err := m.UniversalUDPMux.GetConnForURL(ufrag, url, addr)
+	if err != nil {
+		return nil, err
+	}
+	cc := &CountedConn{PacketConn: c, Ufrag: ufrag}
+	m.mu.Lock()
+	m.Handles = append(m.Handles, cc)
+	m.URLs = append(m.URLs, url)
+	m.mu.Unlock()
+	return cc, nil
+}
+
+// GetXORMappedAddrContext forwards the cancellable lookup when the inner mux has it.
+func (m *CountingUniversalUDPMux) GetXORMappedAddrContext(ctx context.Context, a net.Addr, d time.Duration) (*stun.XORMappedAddress, error) {
+	type getter interface {
+		GetXORMappedAddrContext(context.Context, net.Addr, time.Duration) (*stun.XORMappedAddress, error)
+	}
+	if g, ok := m.UniversalUDPMux.(getter); ok {
+		return g.GetXORMappedAddrContext(ctx, a, d)
+	}
+	return m.UniversalUDPMux.GetXORMappedAddr(a, d)
+}
+
+// Unreleased lists handles that were never closed.
+func (m *CountingUniversalUDPMux) Unreleased() []string {
+	m.mu.Lock()
+	defer m.mu.Unlock()
+	var out []string
+	for i, h := range m.Handles {
+		h.mu.Lock()
+		cl := h.Closes
+		h.mu.Unlock()
+		if cl == 0 {
+			out = append(out, fmt.Sprintf("%s+%s@%s", h.Ufrag, m.URLs[i], h.LocalAddr()))
 		}
 	}
 	return out
